@@ -226,3 +226,130 @@ func TestC20_Replay(t *testing.T) {
 		t.Fatalf("REPRODUCED %s", v.Msg)
 	}
 }
+
+// ---------------------------------------------------------------------------
+// C20 with flood control on: the PASS line itself is held back on a reconnect
+// (the penalty survives the disconnect). Scenarios only sleep, so a batch runs
+// concurrently against the one package-global logger; every password carries
+// its own nonce, so a hit in the merged log is attributable.
+// ---------------------------------------------------------------------------
+
+type c20RL struct {
+	Pass    Q    `json:"pass"`
+	CapNeg  bool `json:"capneg"`
+	Replies int  `json:"replies"`
+}
+
+func runC20RLBatch(batch []*c20RL) *Violation {
+	logging.SetLogger(c20Log)
+	defer logging.SetLogger(nil)
+	c20Log.take()
+	type res struct {
+		onWire int
+		v      *Violation
+	}
+	out := make(chan res, len(batch))
+	for _, sc := range batch {
+		sc := sc
+		go func() {
+			r := res{}
+			defer func() { out <- r }()
+			tc := newTestClient(cliOpts{Flood: false, Server: "irc.example.net", Configure: func(cfg *client.Config) {
+				cfg.EnableCapabilityNegotiation = sc.CapNeg
+				cfg.Pass = string(sc.Pass)
+			}})
+			defer tc.shutdown()
+			disc := make(chan struct{}, 4)
+			tc.C.HandleFunc(client.DISCONNECTED, func(*client.Conn, *client.Line) { disc <- struct{}{} })
+			for cycle := 0; cycle < 2; cycle++ {
+				if err := tc.C.Connect(); err != nil {
+					r.v = violationf("C20", "rate-limited: Connect: %v", err)
+					return
+				}
+				conn := tc.conn()
+				if !conn.WaitWritten(func(w string) bool { return strings.Contains(w, "USER ") }, 60*time.Second) {
+					r.v = violationf("C20", "rate-limited: registration not written within 60 s (cycle %d)", cycle)
+					return
+				}
+				if cycle == 0 {
+					for i := 0; i < sc.Replies; i++ {
+						tc.C.Privmsg("#chan", strings.Repeat("x", 100))
+					}
+					want := sc.Replies
+					if !conn.WaitWritten(func(w string) bool { return strings.Count(w, "PRIVMSG #chan") >= want }, 60*time.Second) {
+						r.v = violationf("C20", "rate-limited: replies not written within 60 s")
+						return
+					}
+				}
+				r.onWire += strings.Count(conn.Written(), "PASS "+string(sc.Pass)+"\r\n")
+				go tc.C.Close()
+				select {
+				case <-disc:
+				case <-time.After(stallTimeout()):
+					r.v = violationf("C20", "rate-limited: no DISCONNECTED")
+					return
+				}
+				waitCond(stallTimeout(), func() bool { n, _, _ := connGoroutines(tc.C); return n == 0 })
+			}
+		}()
+	}
+	total := 0
+	for range batch {
+		r := <-out
+		if r.v != nil {
+			return r.v
+		}
+		total += r.onWire
+	}
+	recs := c20Log.take()
+	masked, held := 0, 0
+	for _, r := range recs {
+		for _, sc := range batch {
+			if recContains(r, string(sc.Pass)) {
+				return violationf("C20", "flood control on, reconnect: log record at level %s contains the password %q: format %q text %q", r.Level, sc.Pass, r.Format, tail(r.Text, 200))
+			}
+		}
+		if r.Level == "debug" && r.Text == "-> "+c20Mask {
+			masked++
+		}
+		if strings.Contains(r.Format, "Flood!") {
+			held++
+		}
+	}
+	if masked != total {
+		return violationf("C20", "rate-limited batch: %d PASS lines on the wire, %d masked records", total, masked)
+	}
+	if held == 0 {
+		return violationf("C20", "harness: no line was held back by flood control in the rate-limited batch")
+	}
+	return nil
+}
+
+func TestC20_RateLimited(t *testing.T) {
+	col := evid.New("C20", "flood control on: connect, send a few 100-byte messages, disconnect, reconnect at once so that the second connection's PASS is itself rate-limited; batches of 8 scenarios run concurrently; non-trivial = every scenario; distinct by password")
+	defer finish(t, col)
+	rapid.Check(t, func(t *rapid.T) {
+		var batch []*c20RL
+		for i := 0; i < 8; i++ {
+			nonce := fmt.Sprintf("%06x", rapid.IntRange(0x100000, 0xffffff).Draw(t, "nonce"))
+			pw := genUnits(t, "pw_pre", []string{"a", " ", ":", "%s", "*", "PASS", "-"}, 0, 4) + nonce + fmt.Sprint(i) + genUnits(t, "pw_post", []string{"z", " ", "%d", "!"}, 0, 4)
+			batch = append(batch, &c20RL{Pass: Q(pw), CapNeg: rapid.Bool().Draw(t, "capneg"), Replies: rapid.IntRange(1, 3).Draw(t, "replies")})
+		}
+		v := runC20RLBatch(batch)
+		for _, sc := range batch {
+			col.Case(string(sc.Pass), true, "rate_limited_reconnect")
+			col.Sample(sc)
+		}
+		if v != nil {
+			failRapid(t, "TestC20_RateLimited", v, batch)
+		}
+	})
+}
+
+func TestC20_RateLimited_Replay(t *testing.T) {
+	var batch []*c20RL
+	loadReplay(t, &batch)
+	if v := runC20RLBatch(batch); v != nil {
+		t.Fatalf("REPRODUCED %s", v.Msg)
+	}
+}
